@@ -48,6 +48,15 @@ def _dec(v):
     if v is None: return None
     return "err" if v.startswith("err") else v
 
+def _acc(v):
+    """accepted (with which text) / rejected — an error, a serde error and a panic all count as rejected"""
+    if v is None: return None
+    return v if v.startswith("ok(") else "rejected"
+
+def _door_vs_spec(door):
+    """a door's accept/reject decision (and the accepted text) against the declarative grammar verdict"""
+    return lambda line, fi, fm, d=door: (_acc(fi.get(d)), _acc(fm.get("spec_d")))
+
 def _decision(field):
     return (field + ":decision", lambda line, fi, fm, f=field: (_dec(fi.get(f)), _dec(fm.get(f))))
 
@@ -73,7 +82,8 @@ PROPS = {
   # crate by an independent recogniser (law_valid & co.); against the model only the accept/reject
   # decisions are compared (exact texts, offsets and views are compared by C02–C04, C11–C13).
   ops={
-   "parse": dict(fields=[_decision("d1"), _decision("d5"), _decision("d8")], laws=["law_grammar"]),
+   "parse": dict(fields=[_decision("d1"), _decision("d5"), _decision("d8")],
+                 spec=[_door_vs_spec("d%d" % i) for i in range(1, 9)], laws=["law_grammar"]),
    "deser": dict(fields=[_decision("own"), _decision("bor")], laws=["law_refuse"]),
    "tok_new": dict(fields=[], laws=["law_valid"]),
    "from_encoded": dict(fields=[_okerr("r")], laws=["law_exact", "law_verbatim"]),
@@ -100,7 +110,7 @@ PROPS = {
    # decision and text per door; that the doors return the *same* ParseError is law_doors; what the
    # offsets inside it are is C14's business
    "parse": dict(fields=[_decision("d%d" % i) for i in range(1, 9)],
-                 spec=[lambda line, fi, fm: (_dec(fi.get("d1")), _dec(fm.get("spec_d")))],
+                 spec=[_door_vs_spec("d%d" % i) for i in range(1, 9)],
                  laws=["law_grammar", "law_doors", "law_same_ptr"]),
    "deser": dict(fields=["own", "bor"], laws=["law_refuse"]),
   },
@@ -254,7 +264,8 @@ PROPS = {
  ),
  "C18": dict(
   ops={
-   "conv": dict(fields=["ser", "conv"], laws=[]),
+   # the model's `conv=ok` / `ser` = text IS the property (every conversion preserves the text exactly)
+   "conv": dict(fields=[], spec=[("ser", "ser", ident), ("conv", "conv", ident)], laws=[]),
    "deser": dict(fields=["own", "bor"], laws=["law_refuse"]),
    "tok_int": dict(fields=["enc"], laws=["law_decimal"]),
   },
